@@ -926,6 +926,23 @@ class _LoopRT:
             return True
         return self.vc.fork("loop%d" % k)
 
+    def _one_shot_iterators(self, env, i):
+        """Iterators (zip, map, generators, ...) created before the loop and consumed inside it are loop-carried state the
+        invariant does not mention: after the first iteration they are exhausted.  The cut point forks on i == 0; for
+        i > 0 every such iterator in scope is exhausted before the body runs from the arbitrary state."""
+        if self.vc.probe:
+            return
+        import types
+        own = [s[0] for key, s in self.state.items() if isinstance(key, int) and isinstance(s, tuple)]      # the loops' own iterables
+        its = [v for nm, v in env.items() if not nm.startswith("__vc") and isinstance(v, (zip, map, filter, enumerate, types.GeneratorType))
+               and not any(v is o for o in own)]
+        if not its or isinstance(i, int):
+            return
+        if not self.vc.decide(_z(i) == 0):
+            import collections
+            for v in its:
+                collections.deque(v, maxlen=0)
+
     def havoc(self, k, names, env, exiting):
         """Returns the new values of the havocked locals (in `names` order)."""
         spec = self.specs[k]
@@ -943,6 +960,8 @@ class _LoopRT:
                 i = vc.fresh_int("i_loop%d" % k, 0)
                 vc.assume(i < n)
             self.state[(k, "i")] = i
+            if not exiting:
+                self._one_shot_iterators(env, i)
             tokens = spec.fresh(i, n)
             out = []
             for nm in names:
@@ -962,6 +981,8 @@ class _LoopRT:
             i = vc.fresh_int("i_loop%d" % k, 0)
             vc.assume(i < n)
         self.state[(k, "i")] = i
+        if not exiting:
+            self._one_shot_iterators(env, i)
         newvals = {}
         if spec.havoc_locals:
             newvals = spec.havoc_locals(env, i, n) or {}
